@@ -299,7 +299,7 @@ def _gen_step(rng, base_net, step, deep=None):
         onet = netgen.deep_net(rng, deep, n_in=rng.randint(1, 3))
     if not clash:
         onet = netgen.relabel(onet, {l: 'a%d_%s' % (step, l) for l in onet.gates})
-    name = '' if rng.random() < (0.15 if deep else 0.4) else 'B%d' % step
+    name = '' if rng.random() < (0.15 if deep else 0.4) else rng.choice(['B%d' % step, 'B%d' % step, 'B0', 'blk', 'N'])
     add_prefix = rng.random() < 0.75
     kw = {'name': name, 'add_prefix': add_prefix}
     blabels = list(base_net.gates)
@@ -405,6 +405,11 @@ def check_case(case, ctx):
             _apply(c, d)
             outcome = 'ok'
             ok_steps += 1
+            if c.blocks and rng.random() < 0.3:
+                # the caller drops a block registration (the gates stay): the name is free for the next attachment
+                with monitor.suspended():
+                    c.delete_block(rng.choice(sorted(c.blocks)))
+                ctx.count('block_registration_deleted')
         except CirboError as e:
             outcome = type(e).__name__
             c = backup
@@ -451,7 +456,8 @@ def check_case(case, ctx):
 
 def gen_case(rng, spec):
     shape = rng.choice(netgen.SHAPES)
-    net = netgen.rand_net(rng, shape=shape, max_in=4, min_in=1, max_g=7, max_arity=3, n_out=rng.randint(1, 3))
+    net = netgen.rand_net(rng, shape=shape, max_in=4, min_in=1, max_g=7, max_arity=3, n_out=rng.randint(1, 3),
+                          label_style=rng.choice(['plain', 'plain', 'plain', 'at', 'derived']))
     if spec.get('kind') == 'deep':
         return {'kind': 'random', 'shape': shape, 'net': netgen.describe(net), 'rseed': rng.getrandbits(32), 'chain': 1,
                 'deep': rng.choice(spec['depths'])}
